@@ -42,6 +42,7 @@ class CompileCase:
         self.shared_inner_mapping, self.shared_inner_mapping_written = None, []
         self.fixed = {}  # (element id, variable) -> number supplied instead of a symbol
         self.scaled = {}  # (element id, variable) -> (a, b): the step was given a + b * symbol
+        self.tied = {}  # (element id, variable) -> n: the step was given repmat(u, n, 1) of one scalar MX symbol
         override = dict(param_override or {})
         self.parameters = {}
         self.pvalues = {}
@@ -157,6 +158,16 @@ class CompileCase:
                                 el_ = self.built.el(eid)
                                 ic[el_][name] = a_ + b_ * ic[el_][name]
                                 self.scaled[(eid, name)] = (a_, b_)
+            if symtype == "MX" and rng.random() < scaled_prob:
+                # coordinated signs: one scalar decision variable drives all the limits of a link (MX only; SX
+                # has no such thing as a vector made of one symbol)
+                lay = D.var_layout(desc)
+                for eid, L in lay.items():
+                    for name, n in L["actions"]:
+                        if n >= 2 and (eid, name) not in self.fixed and (eid, name) not in self.scaled and rng.random() < 0.6:
+                            u_ = self.XX.sym(f"u_all_{eid}")
+                            ic[self.built.el(eid)][name] = cs.repmat(u_, n, 1)
+                            self.tied[(eid, name)] = n
             drive.do_step(self.built.net, self.via, rng=rng, init_conditions=ic, engine=self.engine, **self.opts, **kw)
         self.order = C.live_order(self.built)
         if restep_T is not None and not any(k_ == ("#", "T") for k_ in self.sym_keys):
@@ -176,6 +187,15 @@ class CompileCase:
             drive.step_elements(self.built.net, rng.choice(drive.VIAS[1:]), engine=self.engine, rng=rng, only_init=[],
                                 **nxt_opts, **drive.step_pars(self.spars))
             self.restepped = True
+        if rng.random() < 0.2:
+            # a what-if evaluation between the step and the compilation: `step_dynamics` is a pure method (it
+            # returns the would-be next states, e.g. after a whole control interval) and stores nothing
+            for o_ in self.built.origins.values():
+                if o_._states and o_.states is not None:
+                    try:
+                        o_.step_dynamics(self.built.net, T=6 * pars["T"], engine=self.engine)
+                    except Exception:
+                        pass
         # the function may be requested from the stepping engine object, from another engine object of
         # the same symbol type, or from one of the other symbol type (the README idiom
         # `sym_metanet.engine.to_function(net, ...)` after the current engine was switched)
@@ -206,18 +226,20 @@ class CompileCase:
 
     def effective(self, vals):
         """`vals` with the variables that were supplied as numbers set to those numbers."""
-        if not self.fixed:
+        if not self.fixed and not self.tied:
             return vals
         out = {k: dict(d) for k, d in vals.items()}
         for (eid, name), x in self.fixed.items():
             out[eid][name] = list(x) if isinstance(x, list) else x
+        for (eid, name), n in self.tied.items():
+            out[eid][name] = [out[eid][name][0]] * n
         return out
 
     def call(self, F, vals, compact, more_out, pvalues=None):
         pv = self.pvalues if pvalues is None else pvalues
         return C.call_positional(F, self.desc, self.order, self.effective(vals), compact, more_out,
                                  params=({k: pv[k] for k in self.parameters} if self.parameters else None),
-                                 fixed=set(self.fixed), scaled=(self.scaled or None))
+                                 fixed=set(self.fixed), scaled=(self.scaled or None), tied=set(self.tied))
 
 
 def numpy_twin_next(M, desc, vals, pars, opts=None, ops=None, scalar_shape="vec1", int_dtype=False, param_override=None):
@@ -275,8 +297,15 @@ def own_successors(case, vals, pvalues=None):
     for eid, L in lay.items():
         for grp in ("states", "actions", "disturbances"):
             for v, n in L[grp]:
-                table[f"{v}_{names[eid]}"] = vals[eid][v]
-                table[f"{v}_{eid}"] = vals[eid][v]
+                x = vals[eid][v]
+                if (eid, v) in case.tied:  # the symbol is the one scalar that drives all entries
+                    table[f"u_all_{eid}"] = (x[0] if isinstance(x, list) else x)
+                    continue
+                if (eid, v) in case.scaled:  # the symbol is the normalised quantity
+                    a_, b_ = case.scaled[(eid, v)]
+                    x = [(t_ - a_) / b_ for t_ in x] if isinstance(x, list) else (x - a_) / b_
+                table[f"{v}_{names[eid]}"] = x
+                table[f"{v}_{eid}"] = x
     pv = case.pvalues if pvalues is None else pvalues
     for k in case.parameters:
         table[k] = pv[k]
